@@ -241,7 +241,7 @@ def run(ctx):
             "hash": S.hash,
         }
     ).filter(lambda c: c["sid"] != c["H"])
-    ctx.explore(kdf_st.map(pkt.norm_case), lambda c: execute(ctx, c), ctx.scale(4000, 60000))
+    ctx.explore(kdf_st.map(pkt.norm_case), lambda c: execute(ctx, c), ctx.scale(3000, 30000))
 
     pairs = [(c, m) for c in pkt.CIPHERS for m in pkt.MACS]
     work = [(c, m, h) for (c, m) in pairs for h in pkt.KEX_HASHES]
